@@ -39,10 +39,16 @@ func gen(t *rapid.T) Case {
 	for _, p := range c.Pool {
 		parsed = append(parsed, pat.MustParse(p, cfg.Icpt))
 	}
-	for range c.Ops {
+	for k, op := range c.Ops {
 		var ps []Probe
 		for i, n := 0, rapid.IntRange(1, 4).Draw(t, "nprobes"); i < n; i++ {
 			ps = append(ps, Probe{Method: rapid.SampledFrom(methods).Draw(t, "method"), Path: pat.GenPath(t, parsed)})
+		}
+		// and a look at what the operation just touched: a path built from its own pattern
+		if pp, err := pat.Parse(op.Pattern, cfg.Icpt); err == nil && op.Pattern != "" {
+			if w, _, ok := pp.Witness(k); ok {
+				ps = append(ps, Probe{Method: rapid.SampledFrom(methods).Draw(t, "touchedMethod"), Path: w})
+			}
 		}
 		c.Probes = append(c.Probes, ps)
 	}
@@ -63,6 +69,9 @@ func check(c Case, st *rig.Stats) error {
 	}
 	for i, op := range c.Ops {
 		s.Apply(op)
+		if v := s.Complaint(); v != nil {
+			return v
+		}
 		if i >= len(c.Probes) {
 			continue
 		}
@@ -77,6 +86,10 @@ func check(c Case, st *rig.Stats) error {
 				continue
 			}
 			o := s.Get(pr.Method, pr.Path)
+			if o.HandlerNil {
+				// (calling it panics, which is C05's subject; that the router hands over no handler at all is this one's)
+				return rig.Violf("zero-handler", "%s %q was handed a zero handler (route %q, params %v); live %v; history %s", pr.Method, pr.Path, o.Pattern, o.Params, s.M.Live(), hist(i))
+			}
 			if o.Panicked {
 				classes = append(classes, "panic(not-judged-here)")
 				continue
